@@ -147,3 +147,27 @@ func (db *DB) VerifFailNextLTXStaging(mode string, skip int, err error) (armed f
 	}
 	return func() bool { return pending }
 }
+
+// VerifPauseNextLTXStaging makes the next open of a local LTX staging file
+// block until release is called; reached is closed once the open is blocked.
+// The caller of that open (a sync or checkpoint) holds the sync executor while
+// it waits, so other operations can be queued behind it deterministically.
+func (db *DB) VerifPauseNextLTXStaging() (reached <-chan struct{}, release func()) {
+	r, g := make(chan struct{}), make(chan struct{})
+	released := false
+	db.openLTXFile = func(name string, flag int, perm os.FileMode) (ltxStagingFile, error) {
+		db.openLTXFile = defaultOpenLTXFile
+		close(r)
+		<-g
+		return defaultOpenLTXFile(name, flag, perm)
+	}
+	return r, func() {
+		if !released {
+			released = true
+			close(g)
+		}
+	}
+}
+
+// VerifResetLTXStaging restores the default staging-file opener.
+func (db *DB) VerifResetLTXStaging() { db.openLTXFile = defaultOpenLTXFile }
